@@ -33,7 +33,10 @@ func runC11(c *Ctx) {
 		return
 	}
 	c11SingleCall(c, bridge)
-	c11Arity(c, bridge)
+	c11Arity(c, bridge, "C11.arity")
+	if barms, und := c.binaryDispatch(); und == "" {
+		c04NoFloat(c, barms, "C11.numbers-exchanged-exactly")
+	}
 	c11Variadic(c, bridge)
 	c11NoDoubleWrap(c, bridge)
 	c11Context(c, bridge)
@@ -300,8 +303,7 @@ func pinDDD(node *ssa.Parameter, present bool) Pin {
 	}
 }
 
-func c11Arity(c *Ctx, br *callBridge) {
-	const rule = "C11.arity"
+func c11Arity(c *Ctx, br *callBridge, rule string) {
 	h := br.H
 	// classify arity tests: comparisons of len(<evaluated argument list>) that guard an error return
 	type test struct {
